@@ -375,9 +375,18 @@ class MultiAgentProblem(  # type: ignore[misc]
         ops = self._operators_extractor.get(exp)
         if OperatorKind.EQUALS in ops:
             self._kind.set_conditions_kind("EQUALITIES")
-        if OperatorKind.NOT in ops:
+        # an implication negates its antecedent, an equivalence both of its sides
+        if (
+            OperatorKind.NOT in ops
+            or OperatorKind.IMPLIES in ops
+            or OperatorKind.IFF in ops
+        ):
             self._kind.set_conditions_kind("NEGATIVE_CONDITIONS")
-        if OperatorKind.OR in ops or OperatorKind.IMPLIES in ops:
+        if (
+            OperatorKind.OR in ops
+            or OperatorKind.IMPLIES in ops
+            or OperatorKind.IFF in ops
+        ):
             self._kind.set_conditions_kind("DISJUNCTIVE_CONDITIONS")
         if OperatorKind.EXISTS in ops:
             self._kind.set_conditions_kind("EXISTENTIAL_CONDITIONS")
